@@ -1,4 +1,5 @@
 ---- MODULE MC_IndParams ----
 EXTENDS IndParams
-MCIdSeqs == {<<"a1">>, <<"7", "a1">>, <<"007", "7", "b_2">>}
+\* incl. sequences where every identifier looks like a number, some in non-canonical form (leading zeros, exponent, decimal)
+MCIdSeqs == {<<"a1">>, <<"7", "a1">>, <<"007", "7", "b_2">>, <<"007", "012">>, <<"1e3", "0040", "1.0", "7">>}
 ====
